@@ -403,7 +403,34 @@ def product_forms_sound():
 
 
 def verify_tridiag():
-    return verify_simple('tridiag', CS.TRIDIAG)
+    """tridiag(a,b,c,r,u,n) = tridiag_malloc(n); tridiag_premalloc(a,b,c,r,u,n); tridiag_free()  (wiring against the callee contracts)"""
+    oid = 'C02/tridiag.c:tridiag'
+    fn = CS.TRIDIAG + '::tridiag'
+    try:
+        ex = CExec([CS.SHARED, CS.TRIDIAG], contracts={k: v for k, v in CS.CONTRACTS.items() if k != 'tridiag'})
+        fd = ex.funcs['tridiag'][1]
+        st0, lens = init_state(fd)
+        n = st0.env['n']
+        hyps = [n >= 1] + [l >= n for l in lens.values()]
+        st = st0.fork()
+        st.pc = list(hyps)
+        outs = ex.exec_block(func_body(fd)['inner'], [st])
+        calls = [(c[1], c[2]) for c in ex.trace if c[0] == 'call']
+        names = [c[0] for c in calls]
+        ok = names == ['tridiag_malloc', 'tridiag_premalloc', 'tridiag_free'] and len(outs) == 1
+        detail = 'calls: %s' % names
+        if ok:
+            margs = calls[0][1]
+            pargs = calls[1][1]
+            want = [st0.env[p] for p, _ in func_params(fd)]
+            ok = margs[0].eq(n) and all((isinstance(a, Ptr) and isinstance(w, Ptr) and a.aid == w.aid and z3.is_true(z3.simplify(a.off == w.off))) or
+                                        (isinstance(a, z3.ExprRef) and a.eq(w)) for a, w in zip(pargs, want))
+            detail += '; arguments forwarded in order'
+        res = [R(oid + '/wiring', 'struct', 'proved' if ok else 'refuted', backend='ast', detail=detail, func=fn)]
+        res += bounds_obligs(oid, fn, ex, hyps)
+        return res
+    except CUnsupported as e:
+        return [R(oid, 'proof', 'undecided', detail='outside the C subset: %s' % e, func=fn)]
 
 
 def rowmajor_lemmas():
